@@ -43,6 +43,9 @@ MSG = {"Point lies outside of the specified simplex.": "OutsideSimplex",
 # arithmetic": the case's geometric verdicts are discarded (and counted)
 GEOMETRIC = ("volumes_sum_to_hull", "delaunay", "facet_in_at_most_two", "every_point_a_vertex", "internal_error",
              "degenerate_simplex")
+# after one of these the object is no triangulation any more: the case ends there
+BROKEN_OBJECT = ("reject_unchanged", "state_unreadable", "index_consistent", "every_point_a_vertex", "facet_in_at_most_two",
+                 "degenerate_simplex", "internal_error", "report_exact", "vertices_appended_once")
 # genuine defect of the unchanged tree found by this check (signature for known_findings.json)
 F31 = ("F31 Triangulation.bowyer_watson drops the flat simplex over a cavity facet that is coplanar with the new point "
        "and shared with a surviving simplex; the hanging facet makes later insertions overlap")
@@ -220,11 +223,15 @@ class Oracle:
         self.would_fail_fragile = 0
         self.hanging = None       # (step, facet): trigger of finding F31, see GEOMETRIC / F31 below
         self.tolerated = None     # (step, simplex): trigger of finding F32
+        self.raw = []             # every clause that tripped, also the unreported ones: (clause, step)
         self.near_degenerate = False   # a 'gap' point (2e-8 outside a hull facet) was inserted
 
     def err(self, clause, msg, step):
+        self.raw.append((clause, step))
         if clause in GEOMETRIC:
-            if self.fragile:
+            if self.fragile or self.near_degenerate:
+                # decisions with a tiny exact margin / a point placed 2e-8 outside a facet: the regime of the
+                # documented 1e-8 tolerances, never reported (counted)
                 self.would_fail_fragile += 1
                 return
             if self.hanging is not None:
@@ -336,8 +343,9 @@ class Oracle:
     def _after_step(self, tri, before, after, out, ret, step, volume, rec):
         if out == "Accepted" and rec is not None:
             self.note_hanging(tri, rec, step)
-        for clause, msg in X.structure_errors(tri):
-            self.err(clause, msg, step)
+        if out != "Broken":
+            for clause, msg in X.structure_errors(tri):
+                self.err(clause, msg, step)
         if out == "Accepted":
             dl, ad = {simp(s) for s in ret[0]}, {simp(s) for s in ret[1]}
             b = {simp(s) for s in before[1]}
@@ -412,7 +420,7 @@ def drive(d, init_pts, T, family, rng=None, nins=0, inserts=None, volume_every_s
         a = rec.adds[0]
         pid = len(allpts)
         allpts.append(p)
-        nerr = len(orc.errors)
+        nraw = len(orc.raw)
         try:        # first: the triggers of the known findings are found among the predicate outcomes
             orc.check_predicates(a, list(tri.vertices) if out == "Accepted" else list(before[0]) + [p], k)
         except Exception as e:  # noqa: BLE001
@@ -430,7 +438,7 @@ def drive(d, init_pts, T, family, rng=None, nins=0, inserts=None, volume_every_s
                           "ret": None if ret is None else ({simp(s) for s in ret[0]}, {simp(s) for s in ret[1]}),
                           "obs": obs, "kind": kind, "hint_kind": hk,
                           "path": path_of(a, out)})
-        corrupt = any(c in ("reject_unchanged", "state_unreadable", "index_consistent") for c, _m, _s in orc.errors[nerr:])
+        corrupt = any(c in BROKEN_OBJECT for c, _s in orc.raw[nraw:])
         if obs is None or corrupt or out not in ("Accepted", "OutsideSimplex", "AlreadyVertex", "InsideHull", "Broken"):
             break       # the object is no longer a triangulation: the rest of the history says nothing more
     general = False
